@@ -16,6 +16,8 @@
 (*  PROMO  a pawn on the seventh rank with all combinations of capturable  *)
 (*         pieces ahead (rooks on home squares with rights), kings on a    *)
 (*         grid, both colours                                              *)
+(*  FORCED locked positions whose lines never branch: exactly one legal    *)
+(*         move for each side, for at least four plies                     *)
 (* Stride/Off select a deterministic 1/Stride sample (quick tier).         *)
 (***************************************************************************)
 EXTENDS Fen, Zobrist, TLC, Json
@@ -128,11 +130,43 @@ PromoW(f) ==
             /\ Sel(Mix(t[1], t[2], f, AheadIdx(t[3][1]) * 16 + AheadIdx(t[3][2]) * 4 + AheadIdx(t[3][3]))) } }
 Promo(f) == PromoW(f) \cup { Mirror(p) : p \in PromoW(f) }
 
+\* FORCED: locked positions in which the side to move has exactly one legal move, and so has the other side after it, for
+\* at least four plies (kings shuffling behind pawn walls, a walled-in bishop): lines that never branch and never end, where
+\* one ply of depth must still cost one ply of the depth limit, of the ply counter and of the state stack.
+\* Skeleton: each king in a corner with its own pawns on b/d (or g/e) of its second rank blocked by enemy pawns in front
+\* of them, optionally a bishop walled in beside it; the seed adds one more locked pawn pair anywhere.
+WallW(b, hside, bishop) ==
+  LET k == IF hside THEN 7 ELSE 0   bs == IF hside THEN 5 ELSE 2
+      f1 == IF hside THEN 6 ELSE 1  f2 == IF hside THEN 4 ELSE 3
+      b1 == Put(Put(Put(Put(Put(b, k, "K"), SqOf(1, f1), "P"), SqOf(1, f2), "P"), SqOf(2, f1), "p"), SqOf(2, f2), "p")
+  IN IF bishop THEN Put(b1, bs, "B") ELSE b1
+WallB(b, hside, bishop) ==
+  LET k == IF hside THEN 63 ELSE 56   bs == IF hside THEN 61 ELSE 58
+      f1 == IF hside THEN 6 ELSE 1  f2 == IF hside THEN 4 ELSE 3
+      b1 == Put(Put(Put(Put(Put(b, k, "k"), SqOf(6, f1), "p"), SqOf(6, f2), "p"), SqOf(5, f1), "P"), SqOf(5, f2), "P")
+  IN IF bishop THEN Put(b1, bs, "b") ELSE b1
+RECURSIVE ForcedLine(_, _)
+ForcedLine(p, n) ==
+  n = 0 \/ (Cardinality(Legal(p)) = 1 /\ ForcedLine(Apply(p, CHOOSE m \in Legal(p) : TRUE), n - 1))
+\* members: the forced lines themselves (their root has one move and is answered without a search) and, above all, their
+\* parents - roots with a choice of which at least one move enters a forced line (the extra pawn pair one step apart)
+Forced(x) ==
+  { q \in
+      { LET b0 == WallB(WallW(EmptyBoard, t[1], t[3]), t[2], t[4])
+            gap == IF t[6] THEN 16 ELSE 8
+            b1 == IF Row(x) \in 1..4 /\ b0[x] = Empty /\ b0[x + 8] = Empty /\ b0[x + gap] = Empty
+                  THEN Put(Put(b0, x, "P"), x + gap, "p") ELSE b0
+        IN Mk(b1, t[5], {}, 8) : t \in BOOLEAN \X BOOLEAN \X BOOLEAN \X BOOLEAN \X Sides \X BOOLEAN } :
+      /\ Sane(q)
+      /\ \/ ForcedLine(q, 4)
+         \/ (Cardinality(Legal(q)) >= 2 /\ \E m \in Legal(q) : ForcedLine(Apply(q, m), 4)) }
+
 ---------------------------------------------------------------------------
 VARIABLE st
 Seeds == IF Fam = "PROMO" THEN 0..7 ELSE Sq
 Members(k) == CASE Fam = "KXK" -> KXK(k) [] Fam = "KXKY" -> KXKY(k) [] Fam = "CASTLE" -> Castle(k) \cup CastleK(k)
                 [] Fam = "DPUSH" -> DPush(k) [] Fam = "CASTLETEXT" -> CastleText(k) [] Fam = "MATES" -> Mates(k) [] Fam = "EP" -> Ep(k) [] Fam = "PROMO" -> Promo(k)
+                [] Fam = "FORCED" -> Forced(k)
 
 Init == st \in { [stage |-> 0, k |-> k] : k \in Seeds }
 Next == /\ st.stage = 0
